@@ -277,12 +277,12 @@ Proof.
   set (ops := [mk_sop (b2z vb) d1 0; mk_sop (lenZ prog) (Some prog) 1]).
   assert (B1 : sop_bytes (mk_sop (b2z vb) d1 0) = [vb]).
   { unfold sop_bytes, d1. cbn [sop_opcode sop_data]. destruct V as [[E0 _]|[E1 _]].
-    - rewrite E0. cbn [Z.eqb op_bytes Z.ltb Z.compare]. Show. rewrite <- E0, z2b_b2z. Show. reflexivity.
+    - rewrite E0. cbn [Z.eqb op_bytes Z.ltb Z.compare]. rewrite <- E0, z2b_b2z. reflexivity.
     - destruct (Z.eqb_spec (b2z vb) 0); [lia|]. cbn [op_bytes]. now rewrite z2b_b2z. }
   assert (B2 : sop_bytes (mk_sop (lenZ prog) (Some prog) 1) = z2b (lenZ prog) :: prog).
   { unfold sop_bytes. cbn [sop_opcode sop_data op_bytes]. destruct (Z.ltb_spec (lenZ prog) 76); [reflexivity|lia]. }
   assert (W : Forall sop_wf ops).
-  { repeat constructor; unfold sop_wf, d1; cbn [sop_opcode sop_data].
+  { constructor; [|constructor; [|constructor]]; unfold sop_wf, d1; cbn [sop_opcode sop_data].
     - destruct V as [[E0 _]|[E1 _]].
       + rewrite E0. cbn [Z.eqb op_wf]. change (lenZ []) with 0. lia.
       + destruct (Z.eqb_spec (b2z vb) 0); [lia|]. cbn [op_wf]. lia.
@@ -292,4 +292,47 @@ Proof.
   destruct (raw_iter_complete ops [] W C (or_introl eq_refl)) as (e & Rr & E1 & _).
   rewrite (E1 eq_refl), app_nil_r in Rr. exists ops. rewrite <- Rr. f_equal.
   unfold ops, ops_bytes. cbn [map concat]. rewrite B1, B2. now rewrite app_nil_r.
+Qed.
+
+(* ---------- what the cleaned subscript is ---------- *)
+(* on a script that parses, removing the pattern [0xab] operation by operation drops exactly
+   the operations whose OPCODE is OP_CODESEPARATOR; a byte 0xab inside push data stays *)
+Lemma z2b_is_ab op : 0 <= op < 256 -> z2b op = xab -> op = 0xab.
+Proof. intros R E. apply (f_equal b2z) in E. rewrite z2b_small in E by exact R. exact E. Qed.
+Lemma sop_is_codesep o : sop_wf o -> bytes_eqb (sop_bytes o) [xab] = (sop_opcode o =? 0xab).
+Proof.
+  destruct o as [op d k]. unfold sop_wf, sop_bytes. cbn [sop_opcode sop_data]. destruct d as [d|]; cbn [op_wf op_bytes].
+  - intros (R & _). destruct (Z.eqb_spec op 171); [lia|].
+    destruct (bytes_eqb _ [xab]) eqn:E; [|reflexivity]. apply bytes_eqb_eq in E. exfalso.
+    destruct (op <? 76); [|destruct (op =? 76); [|destruct (op =? 77)]]; injection E as E _;
+      apply z2b_is_ab in E; lia.
+  - intros R. destruct (Z.eqb_spec op 171) as [->|N]; [reflexivity|].
+    destruct (bytes_eqb _ [xab]) eqn:E; [|reflexivity]. apply bytes_eqb_eq in E. injection E as E.
+    apply z2b_is_ab in E; lia.
+Qed.
+Definition not_codesep (o : sop) : bool := negb (sop_opcode o =? 0xab).
+Theorem strip_codesep_ops ops : Forall sop_wf ops ->
+  strip_codesep (ops_bytes ops) = ops_bytes (filter not_codesep ops).
+Proof.
+  intros W. unfold strip_codesep. rewrite (fad_ref_ops_bytes [xab] ops one_op_codesep W).
+  induction W as [|o ops Wo W IH]; [reflexivity|]. unfold fad_ops. cbn [map concat filter]. fold (fad_ops [xab] ops).
+  rewrite (sop_is_codesep o Wo), IH. unfold not_codesep at 2. destruct (sop_opcode o =? 171); cbn [negb]; reflexivity.
+Qed.
+Corollary strip_codesep_parsed script ops : raw_iter script = (ops, None) ->
+  script = ops_bytes ops /\ strip_codesep script = ops_bytes (filter not_codesep ops).
+Proof.
+  intros R. destruct (raw_iter_sound _ _ _ R) as (W & _ & rest & E & E1 & _).
+  rewrite (E1 eq_refl), app_nil_r in E. split; [exact E|]. rewrite E at 1. now apply strip_codesep_ops.
+Qed.
+
+(* the two error cases of the reference, spelled out *)
+Lemma legacy_sighash_error H code t idx ht :
+  snd (legacy_sighash H code t idx ht) = true <->
+  (length (tx_vin t) <= idx)%nat \/ (sh_single ht = true /\ (length (tx_vout t) <= idx)%nat).
+Proof.
+  unfold legacy_sighash. destruct (nth_error (tx_vin t) idx) eqn:E.
+  - assert (idx < length (tx_vin t))%nat by (apply nth_error_Some; congruence).
+    destruct (sh_single ht); cbn [andb]; [destruct (Nat.leb_spec (length (tx_vout t)) idx)|]; cbn [snd];
+      split; intros; try discriminate; try tauto; try lia; destruct H1 as [?|[? ?]]; try discriminate; lia.
+  - apply nth_error_None in E. cbn [snd]. tauto.
 Qed.
